@@ -9,9 +9,9 @@ FAULT_MODES = ["before", "before", "after", "base", "dead"]
 
 @st.composite
 def reg_cases(draw, max_nodes=8, max_ops=6, faults=True, det_share=15, min_runs=1, disturb_last=False,
-              late=True, xdeps=False, alias=False, lits=2, sread=False, foreign=False):
+              late=True, xdeps=False, alias=False, lits=2, sread=False, foreign=False, store_args=False):
     g = specs.Gen(draw, registry=True, opaque=False, late=late, xdeps=xdeps, alias=alias, lits=lits, sread=sread,
-                  foreign=foreign)
+                  foreign=foreign, store_args=store_args)
     n = draw(st.integers(2, max_nodes))
     # make sure there is something to store
     while len(g.nodes) < n:
